@@ -6,7 +6,7 @@ import Ovsdb.Theorems.C08
   on what a select on a fresh transaction returns.
 -/
 namespace Ovsdb.C03
-open Ovsdb AMap
+open Ovsdb AMap Ovsdb.C05
 
 theorem mem_mapPairs_iff (m : AMap Atom Atom) (p : Atom × Atom) : p ∈ mapPairs m ↔ get? m p.1 = some p.2 := by
   unfold mapPairs
@@ -146,5 +146,202 @@ theorem evalCond_agrees_reference (f : CondFn) (a b : Value) (v : Bool) (h : eva
     | opt y => simp [Value.kindTag] at hk
     | set y => simp [Value.kindTag] at hk
     | map y => exact evalCond_map f x y v h
+
+/-- `RowsByCondition` on OVS-notation conditions is `rowsByCondition` on their native form
+    (an empty list selects every row either way) -/
+theorem cacheRowsByCondition_eq (ts : TableSchema) (c : Cache) (w : List WCond) (us : List UUID)
+    (h : cacheRowsByCondition ts c w = .ok us) :
+    ∃ conds, nativeConds ts w = .ok conds ∧ rowsByCondition c (zeroRowOf ts) conds = .ok us := by
+  unfold cacheRowsByCondition at h
+  by_cases hw : w.isEmpty = true
+  · have : w = [] := List.isEmpty_iff.mp hw
+    subst this
+    simp only [List.isEmpty_nil, if_true, pure, Except.pure] at h
+    refine ⟨[], by simp [nativeConds, pure, Except.pure], ?_⟩
+    simpa [rowsByCondition] using h
+  · simp only [hw, Bool.false_eq_true, if_false, bind, Except.bind] at h
+    split at h
+    · cases h
+    · rename_i conds hc
+      exact ⟨conds, hc, h⟩
+
+/-- the rows of the cache after warming it with database rows -/
+def warmStep (dc : Cache) (c : Cache) (u : UUID) : Except String Cache :=
+  match get? dc.rows u with
+  | none => pure c
+  | some r => match c.create u r false with
+    | .ok c' => pure c'
+    | .error _ => .error "failed warming transaction cache"
+
+theorem warm_rows (dc : Cache) (l : List UUID) (c c' : Cache) (h : l.foldlM (warmStep dc) c = .ok c') (x : UUID) :
+    get? c'.rows x = if x ∈ l then (match get? dc.rows x with | some r => some r | none => get? c.rows x) else get? c.rows x := by
+  induction l generalizing c with
+  | nil => simp [pure, Except.pure] at h; subst h; simp
+  | cons a t ih =>
+    simp only [List.foldlM_cons, bind, Except.bind] at h
+    split at h
+    · cases h
+    · rename_i c1 hc1
+      have := ih c1 h
+      rw [this]
+      unfold warmStep at hc1
+      split at hc1
+      · rename_i hnone
+        simp only [pure, Except.pure, Except.ok.injEq] at hc1
+        subst hc1
+        by_cases hx : x = a
+        · subst hx; simp [hnone]
+        · simp [hx]
+      · rename_i r hsome
+        split at hc1
+        · rename_i c2 hcr
+          simp only [pure, Except.pure, Except.ok.injEq] at hc1
+          subst hc1
+          unfold Cache.create at hcr
+          split at hcr
+          · cases hcr
+          · rename_i hnot
+            simp only [Bool.false_and, Bool.false_eq_true, if_false, Except.ok.injEq] at hcr
+            subst hcr
+            by_cases hx : x = a
+            · subst hx
+              simp [hsome, get?_insert]
+            ·               simp [hx, get?_insert]
+        · cases hc1
+
+/-- every condition of `conds` evaluates to true on `row` -/
+def AllTrue (conds : List Cond) (u : UUID) (row : Row) : Prop := ∀ cnd ∈ conds, CondTrue row u cnd
+
+/-- the hypotheses of C08's exactness theorem for one cache -/
+structure CacheOK (c : Cache) : Prop where
+  exact : IndexExact c
+  wf : ∀ ix ∈ c.ixs, ∀ u row, get? c.rows u = some row → RowSpecOK row ix.spec
+
+/-- **C03 (12)** the rows an operation works on are exactly: the rows of the
+    transaction's own cache that satisfy the conditions, plus the database rows
+    that satisfy them and that the transaction has neither touched nor deleted --
+    "the transaction so far, overlaid on the database", for every condition list
+    and every index configuration. -/
+theorem overlay_exact (σ : DbModel) (db : Database) (tx : Txn) (t : String) (w : List WCond)
+    (ts : TableSchema) (tc dc : Cache)
+    (hts : σ.table t = some ts) (htc : get? tx.cache t = some tc) (hdc : get? db t = some dc)
+    (okT : CacheOK tc) (okD : CacheOK dc) (hz : ZeroOK (zeroRowOf ts))
+    (rows : List (UUID × Row)) (tx' : Txn) (h : overlayRows σ db tx t w = .ok (rows, tx')) :
+    ∃ conds, nativeConds ts w = .ok conds ∧ ∀ u row, (u, row) ∈ rows ↔
+      (u ∉ tx.deleted ∧ ((get? tc.rows u = some row ∧ AllTrue conds u row) ∨
+        (get? tc.rows u = none ∧ get? dc.rows u = some row ∧ AllTrue conds u row))) := by
+  unfold overlayRows at h
+  simp only [hts, htc, hdc, bind, Except.bind] at h
+  split at h
+  · cases h
+  · rename_i txnIds hT
+    split at h
+    · cases h
+    · rename_i dbIds hD
+      split at h
+      · cases h
+      · rename_i tc' hW
+        simp only [pure, Except.pure, Except.ok.injEq, Prod.mk.injEq] at h
+        obtain ⟨hr, _⟩ := h
+        obtain ⟨conds, hn, hTr⟩ := cacheRowsByCondition_eq ts tc w txnIds hT
+        obtain ⟨conds', hn', hDr⟩ := cacheRowsByCondition_eq ts dc w dbIds hD
+        rw [hn] at hn'; cases hn'
+        refine ⟨conds, hn, ?_⟩
+        have hTm := C08.rowsByCondition_exact tc okT.exact okT.wf _ hz conds txnIds hTr
+        have hDm := C08.rowsByCondition_exact dc okD.exact okD.wf _ hz conds dbIds hDr
+        have hrows := warm_rows dc _ tc tc' hW
+        have htw : ∀ x, x ∈ List.filter (fun u => (get? tc.rows u).isNone && decide (u ∉ tx.deleted)) dbIds ↔
+            (x ∈ dbIds ∧ get? tc.rows x = none ∧ x ∉ tx.deleted) := by
+          intro x
+          simp only [List.mem_filter, Bool.and_eq_true, decide_eq_true_eq, Option.isNone_iff_eq_none]
+        intro u row
+        subst hr
+        simp only [List.mem_filterMap, List.mem_filter, List.mem_append, decide_eq_true_eq,
+          Option.map_eq_some_iff, Prod.mk.injEq]
+        constructor
+        · rintro ⟨u', ⟨hmem, hnd⟩, r', hg, rfl, rfl⟩
+          refine ⟨hnd, ?_⟩
+          rw [hrows] at hg
+          rcases hmem with hmem | hmem
+          · obtain ⟨row0, hr0, hall⟩ := (hTm u').mp hmem
+            have hnw : ¬ (u' ∈ List.filter (fun u => (get? tc.rows u).isNone && decide (u ∉ tx.deleted)) dbIds) := by
+              rw [htw]; rintro ⟨_, hn, _⟩; rw [hr0] at hn; cases hn
+            rw [if_neg hnw, hr0] at hg; cases hg
+            exact Or.inl ⟨hr0, hall⟩
+          · have hmem : u' ∈ List.filter (fun u => (get? tc.rows u).isNone && decide (u ∉ tx.deleted)) dbIds :=
+              List.mem_filter.mpr hmem
+            obtain ⟨hdb, hnone, _⟩ := (htw u').mp hmem
+            obtain ⟨row1, hr1, hall⟩ := (hDm u').mp hdb
+            rw [if_pos hmem, hr1] at hg
+            cases hg
+            exact Or.inr ⟨hnone, hr1, hall⟩
+        · rintro ⟨hnd, hcase⟩
+          rcases hcase with ⟨hr0, hall⟩ | ⟨hnone, hr1, hall⟩
+          · refine ⟨u, ⟨Or.inl ((hTm u).mpr ⟨row, hr0, hall⟩), hnd⟩, row, ?_, rfl, rfl⟩
+            rw [hrows]
+            have hnw : ¬ (u ∈ List.filter (fun u => (get? tc.rows u).isNone && decide (u ∉ tx.deleted)) dbIds) := by
+              rw [htw]; rintro ⟨_, hn, _⟩; rw [hr0] at hn; cases hn
+            rw [if_neg hnw, hr0]
+          · have hdb := (hDm u).mpr ⟨row, hr1, hall⟩
+            have hm : u ∈ List.filter (fun u => (get? tc.rows u).isNone && decide (u ∉ tx.deleted)) dbIds :=
+              (htw u).mpr ⟨hdb, hnone, hnd⟩
+            refine ⟨u, ⟨Or.inr (List.mem_filter.mp hm), hnd⟩, row, ?_, rfl, rfl⟩
+            rw [hrows, if_pos hm, hr1]
+
+/-- **C03 (13)** what a `select` returns, at any point of a transaction: the
+    overlay rows of (12), each converted to OVS notation and cut down to the
+    named columns. -/
+theorem select_exact (σ : DbModel) (db : Database) (tx tx1 : Txn) (op : Operation)
+    (ts : TableSchema) (tc dc : Cache)
+    (hts : σ.table op.table = some ts) (htc : get? tx.cache op.table = some tc) (hdc : get? db op.table = some dc)
+    (okT : CacheOK tc) (okD : CacheOK dc) (hz : ZeroOK (zeroRowOf ts))
+    (r : OpResult) (step : List ((String × UUID) × ModelUpdate))
+    (hop : op.op = "select") (h : execOp σ db tx op = .ok (r, tx1, step)) :
+    ∃ (conds : List Cond) (sel : List (UUID × Row)) (out : List OvsRow), nativeConds ts op.where_ = .ok conds ∧
+      (∀ u row, (u, row) ∈ sel ↔
+        (u ∉ tx.deleted ∧ ((get? tc.rows u = some row ∧ AllTrue conds u row) ∨
+          (get? tc.rows u = none ∧ get? dc.rows u = some row ∧ AllTrue conds u row)))) ∧
+      sel.mapM (fun p => newRow ts ⟨p.1, p.2⟩) = .ok out ∧
+      r.rows = out.map (projectRow op.columns) ∧ step = [] := by
+  unfold execOp at h
+  simp only [hop, String.reduceEq, if_false, if_true, hts] at h
+  split at h
+  · cases h
+  · rename_i sel tx2 hov
+    split at h
+    · cases h
+    · rename_i out hout
+      simp only [Except.ok.injEq, Prod.mk.injEq] at h
+      obtain ⟨hr, _, hs⟩ := h
+      obtain ⟨conds, hn, hmem⟩ := overlay_exact σ db tx op.table op.where_ ts tc dc hts htc hdc okT okD hz sel tx2 hov
+      exact ⟨conds, sel, out, hn, hmem, hout, by rw [← hr], hs.symm⟩
+
+theorem zeroOK_map (cols : AMap String ColSchema) (col : String) (m : AMap Atom Atom)
+    (h : get? (cols.map (fun p => (p.1, zeroValue p.2))) col = some (.map m)) : m = [] := by
+  induction cols with
+  | nil => simp at h
+  | cons p t ih =>
+    simp only [List.map_cons, get?_cons] at h
+    split at h
+    · simp only [Option.some.injEq] at h
+      unfold zeroValue at h
+      split at h <;> first | (cases h; done) | skip
+      all_goals first | rfl | (cases h; rfl)
+    · exact ih h
+
+/-- the zero row of any table satisfies the side condition of (12)/(13): its map columns are empty -/
+theorem zeroOK_zeroRowOf (ts : TableSchema) : ZeroOK (zeroRowOf ts) := by
+  intro col m h
+  exact zeroOK_map ts.cols col m h
+
+/-- an empty cache meets the hypotheses of (12)/(13), whatever its index configuration -/
+theorem cacheOK_empty (specs : List Spec) : CacheOK (Cache.empty specs) :=
+  ⟨(empty_exact specs).1, by intro ix _ u row h; simp [Cache.empty] at h⟩
+
+/-! Non-vacuity of (13): the first `select` of a transaction on the example database
+    (empty transaction cache, nothing deleted) meets every hypothesis. -/
+example : ∃ ts tc dc, exModel.table "T" = some ts ∧ get? (Database.empty exModel) "T" = some tc ∧
+    get? (Database.empty exModel) "T" = some dc ∧ CacheOK tc ∧ CacheOK dc ∧ ZeroOK (zeroRowOf ts) :=
+  ⟨_, Cache.empty [], Cache.empty [], rfl, rfl, rfl, cacheOK_empty _, cacheOK_empty _, zeroOK_zeroRowOf _⟩
 
 end Ovsdb.C03
